@@ -464,6 +464,19 @@ def judge_reseat_fn(ctx, args, kwargs, result, exc, pre):
     if thr != 0.001:
         return ctx.ood("reseat", "non_default_threshold")
     judge_reseat_common(ctx, "reseat", ch, exc, result, 0.0, False)
+    # the list the caller passed must still denote the timeline it denoted (its entries in any order): a caller reseating,
+    # looking up or reseating again from the same list would otherwise start from changes that are no longer at their times
+    try:
+        after = changes_of_bcs(bcs_s)
+    except Exception:
+        after = None
+    if after is None or sorted(after) != sorted(ch):
+        ctx.violate("C11", "reseat", "caller_list_changed",
+                    f"the tempo list passed in denotes other changes after the call: before {[(m, str(b), float(v)) for m, b, v, _ in sorted(ch)][:6]}, "
+                    f"after {None if after is None else [(m, str(b), float(v)) for m, b, v, _ in sorted(after)][:6]}",
+                    dict(changes=[(m, str(b), float(v), float(n)) for m, b, v, n in ch]), dict(caller_list_changed=True))
+    else:
+        ctx.held("reseat", "caller_list_unchanged")
 
 
 def _reseat_pre(ctx, args, kwargs):
